@@ -23,11 +23,30 @@ import zlib
 
 from core.engine import Property, F
 from core import lean
+from core.prng import Rng
 
 CFG1 = {"processes": 1, "maxchunksperchild": 0, "maxtasksperchunk": 0}
 # "every byte offset": a byte range with a pad whose length is 3*log2(size) so that every halving step of
 # the shrinker yields a strictly shorter case (the engine only accepts shorter canonical JSON)
 ALL = [["kr", 0, (1 << 13) - 1, "x" * 39]]
+
+
+NAMES = ["r.log", "r.log.gz", "r.gz.bak", "r.gzip", "a.gz.d/r.log", "r s \u00e9.log", "r s \u00e9.log.gz", "out.d/r.txt", "r.gz"]
+
+
+def name_of(case):
+    """relative name of the result file; coba treats a path as gzip when it CONTAINS '.gz' (DiskSink/DiskSource)"""
+    return case.get("name") or ("r.log.gz" if case.get("gz") else "r.log")
+
+
+def is_gz(case):
+    return ".gz" in name_of(case)
+
+
+def file_at(d, sub, case):
+    path = os.path.join(d, sub, name_of(case))
+    os.makedirs(os.path.dirname(path), exist_ok=True)
+    return path
 
 
 # ------------------------------------------------------------------ building and running
@@ -36,9 +55,11 @@ def build(case, trace):
     from props.c02_components import Env, Lrn, Val
     from coba.experiments import Experiment
     envs = [Env(i, e["n"], e.get("p", 0)) for i, e in enumerate(case["envs"])]
-    if case.get("chunk"):
+    ch = case.get("chunk")
+    if ch:
         from coba.environments import Environments
-        envs = list(Environments(envs).chunk())
+        flags = [True] * len(envs) if ch is True else list(ch)
+        envs = [Environments([e]).chunk()[0] if c else e for e, c in zip(envs, flags)]
     lrns = [Lrn(i, l.get("p", 0)) for i, l in enumerate(case["lrns"])]
     vals = [Val(i, trace, v.get("mode", "rows"), v.get("style", 0), v.get("nrows", 3), case.get("empty", ()), case.get("boom", ()), case.get("big"))
             for i, v in enumerate(case["vals"])]
@@ -173,6 +194,13 @@ class Log:
                 self.bounds.append(off)
         self.recs = [parse_record(ln) for ln in self.lines]
 
+    def record_bytes(self, i):
+        """the bytes record i occupies in the file (its line, or its gzip member)"""
+        if not self.gz:
+            return self.lines[i] + b"\n"
+        m = self.mends.index(self.bounds[i + 1])
+        return self.data[self.mends[m - 1]:self.mends[m]]
+
     def resolve(self, spec):
         n = len(self.data)
         if spec[0] == "b":
@@ -273,7 +301,7 @@ def detect_flags():
 class C02(Property):
     id = "C02"
     prop_modules = ["CobaVerif.Props.C02"]
-    quick_n = 420
+    quick_n = 340
     thorough_n = 6000
     search_n = 160
     case_timeout = 120
@@ -316,9 +344,21 @@ class C02(Property):
         if rng.chance(0.3):
             tr = rng.shuffle([[e, l, v] for e in range(ne) for l in range(nl) for v in range(nv)])
             c["triples"] = tr[:max(1, len(tr) - rng.below(3))]
-        if rng.chance(0.15):
+        r = rng.below(100)
+        if r < 10:
             c["chunk"] = True
+        elif r < 32 and ne >= 2:
+            # chunk()ed and plain environments in one experiment, both declaration orders: plain ones are processed (and logged)
+            # first, so the environment records do not appear in id order
+            fl = [rng.chance(0.5) for _ in range(ne)]
+            if all(fl) or not any(fl):
+                fl[rng.below(ne)] = not fl[0]
+            c["chunk"] = fl
         return c
+
+    def gen_name(self, rng, c):
+        c["name"] = rng.choice(NAMES) if rng.chance(0.4) else rng.choice(["r.log", "r.log", "r.log", "r.log.gz"])
+        c["gz"] = ".gz" in c["name"]
 
     def gen_cfg(self, rng, allow_mp):
         if allow_mp:
@@ -341,7 +381,9 @@ class C02(Property):
         ne, nl = rng.choice([1, 2]), rng.choice([1, 2])
         c = {"envs": [{"n": 1, "p": rng.below(3)} for _ in range(ne)], "lrns": [{"p": rng.below(3)} for _ in range(nl)],
              "vals": [{"mode": "rows", "style": rng.below(2), "nrows": 2}], "desc": rng.choice([None, "long"]),
-             "gz": rng.chance(0.4), "cfg0": CFG1, "cfg": {"processes": 1, "maxtasksperchunk": rng.choice([0, 0, 1])}}
+             "cfg0": CFG1, "cfg": {"processes": 1, "maxtasksperchunk": rng.choice([0, 0, 1])}}
+        c["name"] = rng.choice(["r.log", "r.log", "r.log", "r.log.gz", "r.gz.bak", "a.gz.d/r.log", "r s \u00e9.log"])
+        c["gz"] = ".gz" in c["name"]
         huge = rng.chance(0.12)
         size = rng.randint(1100000, 1500000) if huge else rng.choice([66000, 70000, 90000, 131500, 200000, rng.randint(65000, 300000)])
         if huge and c["gz"]:
@@ -357,7 +399,7 @@ class C02(Property):
         if rng.chance(0.07):
             return self.gen_long(rng, tier)
         c = self.gen_exp(rng)
-        c["gz"] = rng.chance(0.3)
+        self.gen_name(rng, c)
         mp = rng.chance(0.05)
         c["cfg0"] = CFG1
         c["cfg"] = self.gen_cfg(rng, mp)
@@ -374,19 +416,23 @@ class C02(Property):
             cuts += [["p", rng.below(1001)] for _ in range(rng.choice([2, 6, 12]))]
             cuts += [["b", 0, 0], ["b", 1, 0], ["b", nrec, 0], ["b", nrec, -1]]
         c["cuts"] = cuts
-        if not mp and rng.chance(0.25):
-            c["chain"] = {"p": rng.below(1001), "d": rng.choice([-1, 0, 0, 1, 2]), "cfg": self.gen_cfg(rng, False)}
+        if not c.get("chunk") and rng.chance(0.3):
+            c["sparse"] = {"seed": rng.below(10 ** 6), "keep": rng.choice([300, 500, 700, 850]), "shuffle": rng.chance(0.5)}
+        if not mp and rng.chance(0.3):
+            c["chain"] = {"p": rng.below(1001), "d": rng.choice([-1, 0, 0, 1, 2]), "links": rng.choice([1, 2, 2, 3]), "cfg": self.gen_cfg(rng, False)}
         return c
 
     def search(self, rng, tier):
         if rng.chance(0.25):
             return self.gen_long(rng, tier)
         c = self.gen_exp(rng, small=True)
-        c["gz"] = rng.chance(0.3)
+        self.gen_name(rng, c)
         c["cfg0"], c["cfg"] = CFG1, self.gen_cfg(rng, False)
         c["cuts"] = ALL
-        if rng.chance(0.3):
-            c["chain"] = {"p": rng.below(1001), "d": rng.choice([-1, 0, 1]), "cfg": CFG1}
+        if not c.get("chunk") and rng.chance(0.3):
+            c["sparse"] = {"seed": rng.below(10 ** 6), "keep": rng.choice([300, 500, 700]), "shuffle": rng.chance(0.5)}
+        if rng.chance(0.4):
+            c["chain"] = {"p": rng.below(1001), "d": rng.choice([-1, 0, 1]), "links": rng.choice([1, 2, 3]), "cfg": CFG1}
         return c
 
     def corpus(self):
@@ -408,6 +454,17 @@ class C02(Property):
             cs.append(dict(base, envs=[{"n": 1}, {"n": 1}], gz=gz, big={"pairs": [[0, 0]], "size": 140000, "rows": 2}, cuts=lc))
             cs.append(dict(base, gz=gz, big={"pairs": [[0, 0]], "size": 70000, "rows": 1}, cuts=lc))
         cs.append(dict(base, gz=False, big={"pairs": [[0, 0]], "size": 1150000, "rows": 3}, cuts=[["ls", 65537], ["lp", 700], ["le", -1], ["le", -65537]]))
+        # result-file names that CONTAIN '.gz' without ending in it (coba's sink/source treat them as gzip), directories, spaces, non-ASCII
+        for nm in NAMES:
+            cs.append(dict(base, name=nm, gz=".gz" in nm, cuts=[["b", 3, 0], ["b", 3, 1], ["b", 4, -1], ["b", 5, 0], ["b", 0, 0], ["b", 1, 0]],
+                           chain={"p": 300, "d": 0, "links": 2, "cfg": CFG1}))
+        # chunk()ed environment declared before a plain one and the other way round: E records out of id order
+        for fl in ([True, False], [False, True], [True, False, True]):
+            cs.append(dict(base, envs=[{"n": 1}] * len(fl), lrns=[{}, {}], chunk=fl, gz=False, cuts=ALL))
+        # killed multi-process run: only some tasks finished, in arrival order; then three interruptions of the same file
+        for seed in (1, 2, 3):
+            cs.append(dict(base, envs=[{"n": 1}, {"n": 2}, {"n": 1}], lrns=[{}, {"p": 1}], gz=(seed == 2), sparse={"seed": seed, "keep": 500, "shuffle": seed != 1},
+                           cuts=ALL, chain={"p": 100 * seed, "d": 1, "links": 3, "cfg": CFG1}))
         cs.append(dict(base, envs=[{"n": 1}, {"n": 2}], lrns=[{}, {}], gz=False, cfg={"processes": 2}, cuts=[["b", 4, 3], ["b", 5, 0]]))
         cs.append(dict(base, envs=[{"n": 1}, {"n": 2}], chunk=True, gz=False, cfg={"processes": 1, "maxtasksperchunk": 1}, cuts=[["b", 4, 3], ["b", 5, 0], ["b", 3, -1]]))
         return cs
@@ -433,18 +490,23 @@ class C02(Property):
 
     def _evaluate(self, case, driver, d):
         fails, tags = [], []
-        gz = bool(case.get("gz"))
+        gz = is_gz(case)
         fmt = "gz" if gz else "plain"
-        ext = ".log.gz" if gz else ".log"
+        ext = None
         trace = os.path.join(d, "trace")
+        tags.append("name:" + name_of(case).replace("r s \u00e9", "unicode"))
         flags = detect_flags()
         tags.append("fmt:" + fmt)
+        if isinstance(case.get("chunk"), list):
+            tags.append("chunk:mixed:" + "".join("c" if x else "p" for x in case["chunk"]))
+        elif case.get("chunk"):
+            tags.append("chunk:all")
         if case.get("big"):
             tags.append("long-record:>1MiB" if case["big"]["size"] > (1 << 20) else "long-record:>64KiB")
         tags.append("flags:%d%d%d" % tuple(int(x) for x in flags))
 
         # the uninterrupted run
-        full_path = os.path.join(d, "full" + ext)
+        full_path = file_at(d, "full", case)
         st, res = run(case, full_path, trace, case.get("cfg0", CFG1))
         if st != "ok":
             return {"fails": [F("B", "the uninterrupted run raised %r" % (res,), "full-run-raises")], "nontrivial": False, "tags": tags}
@@ -471,6 +533,23 @@ class C02(Property):
                 table.append([rec[0], rec[1], rec[2], rec[3], rec[4], len(table), list(ln)])
             return tindex[ln]
         full_idx = [entry(ln, r) for ln, r in zip(log.lines, log.recs)]
+        sp = case.get("sparse")
+        if sp and not case.get("chunk") and len(log.lines) > 2:
+            # what a multi-process run (every task its own chunk) leaves when it is killed: version + experiment line and the
+            # records of the tasks that happened to finish, in arrival order
+            r = Rng(sp["seed"], "sparse")
+            keep = [i for i in range(2, len(log.lines)) if r.below(1000) < sp["keep"]]
+            if sp.get("shuffle"):
+                keep = r.shuffle(keep)
+            try:
+                log = Log(b"".join(log.record_bytes(i) for i in [0, 1] + keep), gz)
+            except (LogShape, ValueError) as e:
+                return {"fails": [F("H", "sparse log construction failed: %s" % e, "harness-error")], "nontrivial": False, "tags": tags}
+            full_idx = [entry(ln, r) for ln, r in zip(log.lines, log.recs)]
+            tags.append("sparse-log" + (":shuffled" if sp.get("shuffle") else ""))
+            ids = [r[1] for r in log.recs if r[0] == "E"]
+            if ids and sorted(ids) != list(range(len(ids))):
+                tags.append("restored-ids:not-dense")
 
         ks = log.all_ks(case["cuts"])
         nontrivial = False
@@ -484,26 +563,32 @@ class C02(Property):
             observed.append(ob)
             if 0 < k < len(lg.data) and ob["restored_n"] > 0 and ob["ntasks"] > 0:
                 nontrivial = True
-        # a second interruption: cut the file the first resumption produced and resume again
+        # further interruptions ON THE SAME PATH in this process: the file the resumption produced is cut (the resumed run is
+        # killed) and resumed again, up to 3 times
         ch = case.get("chain")
         good = [o for o in observed if o["status"] == "ok" and o.get("result_equal") and o["final_readable"] and not o["bfail"]]
         if ch and good:
-            first = good[(ch["p"] * len(good)) // 1001]     # only a resumption that itself went right is interrupted again
-            if True:
-                lg2 = None
+            cur = good[(ch["p"] * len(good)) // 1001]     # only a resumption that itself went right is interrupted again
+            for link in range(max(1, int(ch.get("links", 1)))):
                 try:
-                    lg2 = Log(first["final_data"], gz)
+                    lg2 = Log(cur["final_data"], gz)
                 except (LogShape, ValueError):
-                    lg2 = None
-                if lg2 is not None and lg2.lines:
-                    lidx2 = [entry(ln, r) for ln, r in zip(lg2.lines, lg2.recs)]
-                    j0 = first["kept_records"]
-                    j2 = min(len(lg2.lines), j0 + ((ch["p"] * 7) % (len(lg2.lines) - j0 + 1)))
-                    k2 = max(0, min(len(lg2.data), lg2.bounds[j2] + ch["d"]))
-                    tags.append("chain")
-                    ob2 = self.one_cut(case, d, len(steps), lg2, lidx2, k2, ch.get("cfg", CFG1), ref, trace, fmt, ext, inv, entry, "chain", fails, tags)
-                    steps.append(("chain", lg2, lidx2, k2, ch.get("cfg", CFG1)))
-                    observed.append(ob2)
+                    break
+                if not lg2.lines:
+                    break
+                lidx2 = [entry(ln, r) for ln, r in zip(lg2.lines, lg2.recs)]
+                j0 = min(cur["j"], len(lg2.lines))
+                pl = (ch["p"] * 7 + 389 * link) % 1001
+                j2 = min(len(lg2.lines), j0 + (pl % (len(lg2.lines) - j0 + 1)))
+                k2 = max(lg2.bounds[j0], min(len(lg2.data), lg2.bounds[j2] + ch["d"]))   # the killed run never removes what it restored
+                tags.append("chain:%d" % (link + 1))
+                ob2 = self.one_cut(case, d, len(steps), lg2, lidx2, k2, ch.get("cfg", CFG1), ref, trace, fmt, ext, inv, entry, "chain", fails, tags,
+                                   path=cur["path"])
+                steps.append(("chain", lg2, lidx2, k2, ch.get("cfg", CFG1)))
+                observed.append(ob2)
+                if not (ob2["status"] == "ok" and ob2.get("result_equal") and ob2["final_readable"] and not ob2["bfail"]):
+                    break
+                cur = ob2
 
         # (A)/(C): the Lean model on the same cuts
         model = None
@@ -536,7 +621,7 @@ class C02(Property):
                 for s, o in zip(steps, observed)][:12]
         return {"fails": fails, "nontrivial": nontrivial, "tags": sorted(set(tags)), "impl": impl, "model": (model or [])[:12]}
 
-    def one_cut(self, case, d, n, lg, lidx, k, cfg, ref, trace, fmt, ext, inv, entry, label, fails, tags):
+    def one_cut(self, case, d, n, lg, lidx, k, cfg, ref, trace, fmt, ext, inv, entry, label, fails, tags, path=None):
         gz = fmt == "gz"
         nb0 = len([f for f in fails if f["kind"] == "B"])
         cls, j, tail = lg.cut_class(k)
@@ -551,14 +636,14 @@ class C02(Property):
             tags.append("cfg:multiprocess")
         elif cfg.get("maxtasksperchunk", 0):
             tags.append("cfg:maxtasksperchunk")
-        path = os.path.join(d, "cut%d%s" % (n, ext))
+        path = path or file_at(d, "c%d" % n, case)
         cut = lg.data[:k]
         with open(path, "wb") as f:
             f.write(cut)
         if os.path.exists(trace):
             os.remove(trace)
-        where = "%s cut at byte %d of %d (%s, %d complete records%s) resumed with %s" % (
-            fmt, k, len(lg.data), cls, j, ", 2nd interruption" if label == "chain" else "", json.dumps(cfg, sort_keys=True))
+        where = "result file %r: %s cut at byte %d of %d (%s, %d complete records%s) resumed with %s" % (
+            name_of(case), fmt, k, len(lg.data), cls, j, ", further interruption of the same file" if label == "chain" else "", json.dumps(cfg, sort_keys=True))
         if not gz and tail and cls == "torn":
             try:
                 json.loads(tail)
@@ -568,7 +653,7 @@ class C02(Property):
         st, res = run(case, path, trace, cfg)
         final = open(path, "rb").read()
         evaluated = read_trace(trace)
-        ob = {"class": cls, "status": st, "evaluated": [list(t) for t in evaluated], "final_data": final, "j": j, "cut": cut,
+        ob = {"path": path, "class": cls, "status": st, "evaluated": [list(t) for t in evaluated], "final_data": final, "j": j, "cut": cut,
               "restored_n": j, "ntasks": 0, "final_readable": False, "kept_records": j}
         recorded = set()      # object triples with an I record among the complete lines of the cut file
         recorded_rows = {}
@@ -702,6 +787,14 @@ class C02(Property):
             yield dict(case, cuts=cuts[len(cuts) // 2:])
         if case.get("cfg") != CFG1:
             yield dict(case, cfg=CFG1)
+        if case.get("name") and case["name"] not in ("r.log", "r.log.gz"):
+            yield dict(case, name="r.log.gz" if ".gz" in case["name"] else "r.log")
+        if case.get("sparse"):
+            yield {k: v for k, v in case.items() if k != "sparse"}
+            if case["sparse"].get("shuffle"):
+                yield dict(case, sparse=dict(case["sparse"], shuffle=False))
+        if case.get("chain") and case["chain"].get("links", 1) > 1:
+            yield dict(case, chain=dict(case["chain"], links=case["chain"]["links"] - 1))
         if case.get("big"):
             b = case["big"]
             if b.get("rows", 1) > 1:
@@ -720,6 +813,8 @@ class C02(Property):
                     c = dict(case)
                     c[key] = case[key][:-1]
                     n = len(c[key])
+                    if key == "envs" and isinstance(c.get("chunk"), list):
+                        c["chunk"] = c["chunk"][:n]
                     pos = {"envs": 0, "lrns": 1}.get(key)
                     for kk in ("empty", "boom"):
                         if c.get(kk) and pos is not None:
@@ -745,19 +840,23 @@ class C02(Property):
                 "from coba.context import CobaContext, NullLogger\n"
                 "CobaContext.logger = NullLogger()\n"
                 "case = json.loads(%r)\n"
-                "d = tempfile.mkdtemp(); ext = '.log.gz' if case.get('gz') else '.log'\n"
-                "full = os.path.join(d, 'full' + ext)\n"
+                "from props.c02 import file_at, is_gz\n"
+                "d = tempfile.mkdtemp(); full = file_at(d, 'full', case)\n"
                 "ref = build(case, None).run(full, quiet=True, processes=1)\n"
-                "log = Log(open(full, 'rb').read(), bool(case.get('gz')))\n"
+                "log = Log(open(full, 'rb').read(), is_gz(case))     # case['sparse'] / case['chain'] are not replayed by this snippet\n"
                 "ks = log.all_ks(case['cuts'])\n"
                 "for k in ks:\n"
-                "    p = os.path.join(d, 'cut%%d%%s' %% (k, ext)); open(p, 'wb').write(log.data[:k])\n"
+                "    p = file_at(d, 'c%%d' %% k, case); open(p, 'wb').write(log.data[:k])\n"
                 "    try:\n"
                 "        r = build(case, None).run(p, quiet=True, **case.get('cfg', {}))\n"
                 "        same = all(list(a.to_dicts()) == list(b.to_dicts()) for a, b in zip((r.environments, r.learners, r.evaluators, r.interactions), (ref.environments, ref.learners, ref.evaluators, ref.interactions))) and r.experiment == ref.experiment\n"
-                "        print(k, log.cut_class(k)[0], 'same Result' if same else 'DIFFERENT Result', 'I ids:', sorted(l[:14] for l in open(p, 'rb').read().split(b'\\n') if l.startswith(b'[\"I\"')) if not case.get('gz') else '')\n"
+                "        print(k, log.cut_class(k)[0], 'same Result' if same else 'DIFFERENT Result', 'I ids:', sorted(l[:14] for l in open(p, 'rb').read().split(b'\\n') if l.startswith(b'[\"I\"')) if not is_gz(case) else '')\n"
                 "    except Exception as e:\n"
                 "        print(k, log.cut_class(k)[0], 'RAISES', type(e).__name__, e)\n"
+                "# the complete monitor (also replays case['sparse'] = log of a killed multi-process run, and case['chain'] = further\n"
+                "# interruptions of the same path in this process):\n"
+                "from props.c02 import PROPERTY\n"
+                "for f in PROPERTY.evaluate(case, None)['fails']: print(f['kind'], f['sig'], f['what'][:300])\n"
                 % (os.path.join(lean.VERIF, "harness"), json.dumps(case)))
 
 
